@@ -646,7 +646,8 @@ def verifyStandingPat (s : State) (cards : List Card) : Except Err (List Card) :
   match s.standerPatIndex with
   | none => .error .valueError
   | some p =>
-    if cards.all ((s.holeOf p).contains ·) then .ok cards else .error .valueError
+    -- `Counter(cards) <= Counter(hole_cards[p])`
+    if cards.all (fun c => cards.count c ≤ (s.holeOf p).count c) then .ok cards else .error .valueError
 
 /-- `actor_index` (4303-4317) -/
 def actorIndex (s : State) : Except Err (Option Nat) :=
